@@ -15,6 +15,10 @@
 (* performs the ring's return step together with its own.                   *)
 (*   send:  enqueue; len_after <= MAX_STREAMS -> wake stream len_after-1;   *)
 (*          len_after = MAX_STREAMS+1 -> wake stream len_after-2            *)
+(*   reserve_slot / (fill) / try_send_reserved / try_cancel_slot_reserve:   *)
+(*          the ring's reservation, index-publication and cancel actions;   *)
+(*          a published reservation with len_after <= MAX_STREAMS wakes     *)
+(*          stream len_after % MAX_STREAMS                                  *)
 (*   wake_stream(s): peek wakers[s] without the lock; Some -> wake;         *)
 (*          None -> lock, look again (wake if Some), unlock                 *)
 (*   poll:  dequeue; nothing -> read keep[s]; FALSE -> dequeue once more    *)
@@ -82,6 +86,7 @@ UInit == Init /\ CInit /\ SInit
 \* the ring's operation steps (everything of RingAtomic!Step but the return)
 RStep(p) == \/ EnqFA(p) \/ EnqLoadHead(p) \/ EnqRecedeOk(p) \/ EnqRecedeFail(p) \/ EnqPublish(p)
             \/ DeqFA(p) \/ DeqLoadTail(p) \/ DeqRecedeOk(p) \/ DeqRecedeFail(p) \/ DeqRelease(p)
+            \/ PubIdxCasOk(p) \/ PubIdxCasFail(p) \/ PubIdxLoadHead(p) \/ UnleakCasOk(p) \/ UnleakCasFail(p)
 
 Wake(s, nf) == [nf EXCEPT ![s] = TRUE]
 
@@ -96,16 +101,47 @@ CallPoll(p, s) == /\ cpc[p] = "idle"
                   /\ cpc' = [cpc EXCEPT ![p] = "poll"] /\ cs' = [cs EXCEPT ![p] = s] /\ cres' = [cres EXCEPT ![p] = ""]
                   /\ UNCHANGED <<waker, wlock, keep, notified, stats, smv>>
 
+\* the reservation API (i: position, from 1, in the calling thread's list of outstanding reservations)
+CallReserve(p) == /\ cpc[p] = "idle"
+                  /\ Call(p, [op |-> "reserve", v |-> 0, i |-> 0])
+                  /\ cpc' = [cpc EXCEPT ![p] = "resv"] /\ cres' = [cres EXCEPT ![p] = ""]
+                  /\ UNCHANGED <<cs, waker, wlock, keep, notified, stats, smv>>
+CallFill(p, i, v) == /\ cpc[p] = "idle"          \* a plain write into the reserved slot: complete at once
+                     /\ Call(p, [op |-> "fill", v |-> v, i |-> i])
+                     /\ cpc' = [cpc EXCEPT ![p] = "cret"] /\ cres' = [cres EXCEPT ![p] = "filled"]
+                     /\ UNCHANGED <<cs, waker, wlock, keep, notified, stats, smv>>
+CallSendReserved(p, i) == /\ cpc[p] = "idle"
+                          /\ Call(p, [op |-> "pub_idx", v |-> 0, i |-> i])
+                          /\ cpc' = [cpc EXCEPT ![p] = "sendr"] /\ cres' = [cres EXCEPT ![p] = ""]
+                          /\ UNCHANGED <<cs, waker, wlock, keep, notified, stats, smv>>
+CallCancelReserved(p, i) == /\ cpc[p] = "idle"
+                            /\ Call(p, [op |-> "unleak_idx", v |-> 0, i |-> i])
+                            /\ cpc' = [cpc EXCEPT ![p] = "cancr"] /\ cres' = [cres EXCEPT ![p] = ""]
+                            /\ UNCHANGED <<cs, waker, wlock, keep, notified, stats, smv>>
+\* whom try_send_reserved wakes
+WakeTargetR(la) == IF la <= MaxS THEN la % MaxS ELSE -1
+
 \* which stream a successful send wakes (the "+1 workaround" of the atomic channel included); -1: nobody
 WakeTarget(la) == IF la <= MaxS THEN la - 1 ELSE IF la = MaxS + 1 THEN la - 2 ELSE -1
 
 \* a ring step; when it completes the ring operation, the thread runs on -- within the same scheduling step -- to the next
 \* scheduling point of the channel layer
 ChanRing(p) ==
-    /\ cpc[p] \in {"send", "poll", "poll2"} /\ pc[p] # "ret"
+    /\ cpc[p] \in {"send", "poll", "poll2", "resv", "sendr", "cancr"} /\ pc[p] # "ret"
     /\ RStep(p)
     /\ IF pc'[p] # "ret"
        THEN UNCHANGED <<cpc, cs, cres>>
+       ELSE IF cpc[p] = "resv"
+       THEN cres' = [cres EXCEPT ![p] = IF reg'[p].res.ok THEN "reserved" ELSE "full"] /\ cpc' = [cpc EXCEPT ![p] = "cret"] /\ UNCHANGED cs
+       ELSE IF cpc[p] = "cancr"
+       THEN cres' = [cres EXCEPT ![p] = IF reg'[p].res.ok THEN "cancelled" ELSE "notyet"] /\ cpc' = [cpc EXCEPT ![p] = "cret"] /\ UNCHANGED cs
+       ELSE IF cpc[p] = "sendr"
+       THEN IF reg'[p].res.ok
+            THEN LET w == WakeTargetR(reg'[p].res.v) IN
+                 /\ cres' = [cres EXCEPT ![p] = "ok"]
+                 /\ IF w >= 0 THEN cpc' = [cpc EXCEPT ![p] = "W1"] /\ cs' = [cs EXCEPT ![p] = w]
+                              ELSE cpc' = [cpc EXCEPT ![p] = "cret"] /\ UNCHANGED cs
+            ELSE cres' = [cres EXCEPT ![p] = "notyet"] /\ cpc' = [cpc EXCEPT ![p] = "cret"] /\ UNCHANGED cs
        ELSE IF cpc[p] = "send"
        THEN IF reg'[p].res.ok
             THEN LET w == WakeTarget(reg'[p].res.v) IN
@@ -356,7 +392,7 @@ ChanStep(p) == \/ ChanRing(p)
 -----------------------------------------------------------------------------
 Queued == Sub(tail, head)
 InvChanTypes == /\ wlock \in BOOLEAN /\ \A s \in Streams : waker[s] \in BOOLEAN /\ keep[s] \in BOOLEAN /\ notified[s] \in BOOLEAN
-                /\ stats.del <= stats.acc + Cardinality({p \in Procs : cpc[p] \in {"send", "W1", "W2", "W3", "cret"}})
+                /\ stats.del <= stats.acc + Cardinality({p \in Procs : cpc[p] \in {"send", "sendr", "W1", "W2", "W3", "cret"}})
 \* the lock is only ever held by a thread between its lock and unlock steps
 InvWakersLock == wlock <=> (\E p \in Procs : cpc[p] \in {"W3", "R3", "XW3", "FW3", "P2"})
 InvSmLocks == /\ vlock <=> (\E p \in Procs : cpc[p] = "P6")
